@@ -10,7 +10,7 @@ THEOREMS = [("Sylvia.Thm.C12", "C12." + t) for t in
            [("Sylvia.Thm.C12WF", "C12.progWFb_sound")] + \
            [("Sylvia.Thm.Obl.Multitest", "Obl." + t) for t in ["mt_no_unwrapping_downcast", "mt_proxy_ops", "mt_inst_defaults", "mt_inst_setters", "mt_forms", "mt_forms_all",
                                                                "mt_contract_bodies"]] + \
-           [("Sylvia.Thm.Obl.Tables", "Obl.extraction_complete"), ("Sylvia.Thm.C02", "C02.dispatch_exact"), ("Sylvia.Thm.C02", "C02.dispatch_exact_struct"),
+           [("Sylvia.Thm.Obl.Complete.C12", "Obl.extraction_complete_C12"), ("Sylvia.Thm.C02", "C02.dispatch_exact"), ("Sylvia.Thm.C02", "C02.dispatch_exact_struct"),
             ("Sylvia.Thm.C05Gen", "C05.parts_faithful_closed")]
 
 ACCOUNTS = ["alice", "bob", "carol"]
